@@ -1,4 +1,4 @@
-From Coq Require Import List Arith Lia.
+From Coq Require Import List Arith ZArith Lia.
 Import ListNotations.
 From Yaqs Require Import Model.Sampling.
 Definition binary (l : list nat) := Forall (fun b => b < 2) l.
@@ -15,3 +15,6 @@ Theorem encode_injective l l' : binary l -> binary l' -> length l = length l' ->
 Proof. intros H. revert l'. induction H as [|c l Hc Hl IH]; intros [|c' l'] H' Hlen E; simpl in Hlen; try lia; [reflexivity|].
   inversion H' as [|? ? Hc' Hl']; subst. cbn [encode] in E.
   assert (c = c') by lia. subst c'. f_equal. apply IH; auto; lia. Qed.
+(* the binary-integer form of the key is the same number, for registers of any width *)
+Theorem encodeZ_encode l : encodeZ l = Z.of_nat (encode l).
+Proof. induction l as [|c l IH]; [reflexivity|]. cbn [encode encodeZ]. rewrite IH. lia. Qed.
